@@ -1,14 +1,14 @@
-SPECIFICATION Spec
+SPECIFICATION SimSpec
 CONSTANTS
   s1 = s1
   s2 = s2
   o1 = o1
   o2 = o2
   None = None
-  Starts = {s1}
+  Starts = {s1, s2}
   IdOf <- IdOfDef
   Objs = {o1, o2}
-  MaxAttempts = 1
+  MaxAttempts = 7
   MaxClock = 4
   FailBudget = 1
   RespBudget = 2
@@ -16,18 +16,11 @@ CONSTANTS
   CloseConn = TRUE
   HasFallback = TRUE
   AllowClose = TRUE
-  OneAtATime = FALSE
+  OneAtATime = TRUE
   SafePool = TRUE
   Strict = FALSE
-VIEW View
-INVARIANT TypeOK
+  Depth = 60
 INVARIANT AtMostOnce
-INVARIANT WritesBounded
-INVARIANT ExactlyOnceAfterClose
 INVARIANT RoutedByID
-INVARIANT ConnOwnership
-INVARIANT GoroutinesGone
-INVARIANT OnSchedule
-PROPERTY SilentAfterClose
-PROPERTY ClosedStartsRefused
+INVARIANT Emit
 CHECK_DEADLOCK FALSE
